@@ -1,20 +1,33 @@
 #!/usr/bin/env python3
-"""Re-evaluate every recorded seed against the current /repo HEAD and the current checks (sequentially; ~1-2 min per seed).
-usage: tools/rerun_seeds.py [C05 C13-seed2 ...]"""
+"""Re-evaluate every recorded seed against the current /repo HEAD and the current checks (each in its own scratch worktree and private Coq
+copy, so several can run at once).
+usage: tools/rerun_seeds.py [-j N] [C05 C13-seed2 ...]"""
+import concurrent.futures
 import glob
 import os
 import subprocess
 import sys
 
 V = os.path.dirname(os.path.dirname(os.path.abspath(__file__)))
-want = sys.argv[1:]
-for d in sorted(glob.glob(os.path.join(V, 'seeded', 'C*'))):
+args = sys.argv[1:]
+jobs = 1
+if args[:1] == ['-j']:
+    jobs = int(args[1]); args = args[2:]
+want = args
+
+
+def one(d):
     name = os.path.basename(d)
-    if not os.path.isdir(d) or (want and not any(name == w or name.startswith(w + '-') for w in want)):
-        continue
     ported = sorted(f for f in os.listdir(d) if f.endswith('.diff') and 'ported' in f)
     patch = os.path.join(d, ported[-1] if ported else 'patch.diff')
     r = subprocess.run([sys.executable, os.path.join(V, 'tools', 'try_seed.py'), name.split('-')[0], patch, os.path.join(d, 'demo.py'), name],
                        stdout=subprocess.PIPE, stderr=subprocess.STDOUT, text=True)
-    print(name, '|', ' '.join(r.stdout.strip().splitlines()[-1:])[:260], flush=True)
+    return name + ' | ' + ' '.join(r.stdout.strip().splitlines()[-1:])[:260]
+
+
+dirs = [d for d in sorted(glob.glob(os.path.join(V, 'seeded', 'C*')))
+        if os.path.isdir(d) and (not want or any(os.path.basename(d) == w or os.path.basename(d).startswith(w + '-') for w in want))]
+with concurrent.futures.ThreadPoolExecutor(max_workers=jobs) as ex:
+    for line in ex.map(one, dirs):
+        print(line, flush=True)
 subprocess.run([sys.executable, os.path.join(V, 'tools', 'seed_matrix.py')])
